@@ -16,7 +16,7 @@ HISTORY_DIFF = {"quick": 160, "thorough": 1500}
 
 def budget(tier):
     if tier == "quick":
-        return dict(runs=20000, wall=80, chunk=150)
+        return dict(runs=40000, wall=80, chunk=150)
     return dict(runs=800000, wall=840, chunk=600)
 
 
